@@ -95,7 +95,10 @@ class LtlAstParserVisitor(LtlParserVisitor):
                         if (not isinstance(value, (int, float))):
                             raise RTAMTException(
                                 'The field {0} of the variable {1} is not of type int or float'.format(id, id_head))
-                    except AttributeError as err:
+                    except RTAMTException:
+                        raise
+                    except Exception as err:
+                        # a property of an imported type may raise anything (BaseProcess.sentinel: ValueError)
                         raise RTAMTException(err)
             except KeyError:
                 if id_tail:
@@ -387,7 +390,9 @@ class LtlAstParserVisitor(LtlParserVisitor):
                     if (not isinstance(value, (int, float))):
                         raise RTAMTException(
                             'The field {0} of the variable {1} is not of type int or float'.format(id, id_head))
-                except AttributeError as err:
+                except RTAMTException:
+                    raise
+                except Exception as err:
                     raise RTAMTException(err)
         except KeyError:
             if id_tail:
